@@ -6056,6 +6056,18 @@ func (a *Agent) TaskDispatch(RequestID uint32, CommandID uint32, Parser *parser.
 							err := socks.SendConnectSuccess(Client.Conn, Client.ATYP, Client.IpDomain, Client.Port)
 							if err == nil {
 								Client.Connected = true
+							} else {
+								/* the client went away while the agent was connecting:
+								 * remove the socket and tell the agent to close its end */
+								a.SocksClientClose(int32(SocketId))
+
+								a.AddJobToQueue(Job{
+									Command: COMMAND_SOCKET,
+									Data: []any{
+										SOCKET_COMMAND_CLOSE,
+										int32(SocketId),
+									},
+								})
 							}
 
 						} else {
